@@ -130,6 +130,15 @@ def c08(env, thorough):
         kind = step['op']
         user = step['user']
         oldpw = {'b': 'bpw', 'root': 'rootpw'}.get(user, None) if kind == 'update' else None
+        # what "the complete new record" is does not depend on the implementation: one new record line
+        # followed by exactly the auxiliary bytes the old file carried
+        new_line, _, new_rest = f1.get(target, b'').partition(b'\n')
+        old_line, _, old_rest = f0.get(target, b'').partition(b'\n')
+        if len(new_line.split(b':')) != 5 or new_line == old_line or (kind == 'update' and new_rest != old_rest) or (kind != 'update' and new_rest != b''):
+            env.violation('completed-record-wrong:%s' % kind,
+                          '[history %s] the record the completed operation left in %s is not "new record line + the %d auxiliary bytes of the old file": %d bytes follow the first line (first difference near byte %d), first line %r' % (
+                              name, target, len(old_rest), len(new_rest), next((i for i in range(min(len(new_rest), len(old_rest))) if new_rest[i] != old_rest[i]), min(len(new_rest), len(old_rest))), new_line[:40]),
+                          {'history': name, 'step': step})
         # collect distinct crash trees
         trees = {}
         meta = {}
@@ -264,15 +273,25 @@ def c09(env, thorough):
         ['persistence model as in C08; operations in progress may show either their old or new state (their intermediate states are judged by C08)'])
 
 
-def _c09_history(env, hname, setup, auxfiles, steps, initial):
+def _c09_history(env, hname, setup, auxfiles, steps, initial, inject=None):
     base = os.path.join(env.work, 'c09', 'store')
     build_tree(env, base, setup, {})
     for fn, data in auxfiles.items():
         append_aux(base, fn, data)
     snap0 = user_files(read_tree(base))
     fs = FS(base)
-    run = engine.run_driver(env.drv, env.work, {'base': base, 'snap': True, 'steps': steps}, tag='c09')
-    if run.report is None or any(not r['ok'] for r in run.report):
+    run = engine.run_driver(env.drv, env.work, {'base': base, 'snap': True, 'steps': steps}, tag='c09', inject=inject)
+    if inject:
+        # one injected failure: the run counts only if the fault landed inside the (single) operation
+        inj = [c for c in run.calls if c.injected]
+        mk2, tid2 = engine.marks(run.calls)
+        bi = [i for i, t in mk2 if t == 'B:0']
+        ei = [i for i, t in mk2 if t.startswith('E:0')]
+        if not (len(inj) == 1 and run.report is not None and bi and ei and bi[0] < run.calls.index(inj[0]) < ei[0] and inj[0].tid == tid2):
+            return 'not-landed'
+        if any(not r['ok'] for r in run.report):
+            return 'reported-failure'   # nothing was acknowledged: durability has nothing to say (C15 judges failures)
+    elif run.report is None or any(not r['ok'] for r in run.report):
         raise TraceError('C09 history %s failed on the unchanged path: %s' % (hname, [(r['i'], r.get('err')) for r in (run.report or []) if not r['ok']]))
     points, stats, acked = engine.replay(base, fs, run)
     env.cov['traces_validated_against_impl'] += stats['validated']
@@ -294,6 +313,7 @@ def _c09_history(env, hname, setup, auxfiles, steps, initial):
             cur.pop(u, None)
         E.append(cur)
         S.append(user_files(engine.snap_to_tree(run.report[i]['snap'])))
+    ksfx = (':after-failed-' + hname.rsplit(':', 1)[-1]) if inject else ''   # fault runs have keys of their own
     pws = sorted({s['pw'] for s in steps if 'pw' in s} | {v[0] for v in initial.values()})
     users = sorted({s['user'] for s in steps} | set(initial))
     probes = [(u, p) for u in users for p in pws]
@@ -367,22 +387,74 @@ def _c09_history(env, hname, setup, auxfiles, steps, initial):
                 u, want, got = culprit
                 lost = next((j for j in range(k_acked, -1, -1) if steps[j]['user'] == u), None)
                 opk = steps[lost]['op'] if lost is not None else '?'
-                env.violation('acknowledged-change-lost:%s' % opk,
+                env.violation('acknowledged-change-lost:%s%s' % (opk, ksfx),
                               '[history %s, power-loss model] crash %s (%s): operations 0..%d were acknowledged, so user %s must be %s, but the post-crash store shows %s. Lost acknowledged operation: #%s %s'
                               % (hname, pt.desc, label, k_acked, u, want, got, lost, steps[lost] if lost is not None else None), replay)
             elif vculprit:
                 fn, have, allowed = vculprit
-                env.violation('final-name-visible-before-content-durable:%s' % steps[op_in_progress]['op'],
+                env.violation('final-name-visible-before-content-durable:%s%s' % (steps[op_in_progress]['op'], ksfx),
                               '[history %s, power-loss model] crash %s (%s) during operation #%d %s: file %s is visible under its final name with %d bytes, which is neither the previous nor the complete new record (%s bytes)'
                               % (hname, pt.desc, label, op_in_progress, steps[op_in_progress], fn, have, allowed), replay)
             elif bculprit:
                 fn, have, want = bculprit
                 lost = next((j for j in range(k_acked, -1, -1) if steps[j]['user'] == owner(fn)), None)
                 opk = steps[lost]['op'] if lost is not None else 'initial'
-                env.violation('acknowledged-record-not-durable:%s' % opk,
+                env.violation('acknowledged-record-not-durable:%s%s' % (opk, ksfx),
                               '[history %s, power-loss model] crash %s (%s): operations 0..%d were acknowledged; file %s must hold exactly the %d acknowledged bytes (record + auxiliary data) but the post-crash store has %s bytes'
                               % (hname, pt.desc, label, k_acked, fn, want, have), replay)
-    env.samples.append({'history': hname, 'steps': [s['op'] + ':' + s['user'] for s in steps], 'mutation_points': len(points), 'distinct_power_loss_states': len(trees)})
+    if not inject or hname.endswith('#1'):
+        env.samples.append({'history': hname, 'steps': [s['op'] + ':' + s['user'] for s in steps], 'mutation_points': len(points), 'distinct_power_loss_states': len(trees)})
+    return 'acknowledged'
+
+
+def c09_faults(env, thorough):
+    """an operation that reports success although one of its fsync calls failed has still acknowledged the
+    change: every power-loss image at (and after) the acknowledgement must show it"""
+    aux = {'b.user': b'aux line 1\naux line 2\n'}
+    initial = {'root': ('rootpw', True), 'b': ('bpw', False), 'c': ('cpw', False)}
+    ops = [
+        ('init', [], {}, {}, {'op': 'init', 'user': 'root', 'pw': 'rootpw'}),
+        ('add', STD_SETUP, aux, initial, {'op': 'add', 'user': 'a', 'pw': 'newpw'}),
+        ('update', STD_SETUP, aux, initial, {'op': 'update', 'user': 'b', 'pw': 'newpw'}),
+        ('setadmin', STD_SETUP, aux, initial, {'op': 'setadmin', 'user': 'b', 'admin': True}),
+        ('remove', STD_SETUP, aux, initial, {'op': 'remove', 'user': 'b'}),
+    ]
+    outcomes = {}
+    for opname, setup, auxf, init, step in ops:
+        base = os.path.join(env.work, 'c09', 'store')
+        build_tree(env, base, setup, {})
+        for fn, data in auxf.items():
+            append_aux(base, fn, data)
+        run0 = engine.run_driver(env.drv, env.work, {'base': base, 'snap': True, 'steps': [step]}, tag='c09b')
+        if run0.report is None or not run0.report[0]['ok']:
+            raise TraceError('C09 fault baseline %s failed: %s' % (opname, run0.report))
+        mk, tid = engine.marks(run0.calls)
+        b = [i for i, t in mk if t == 'B:0'][0]
+        e = [i for i, t in mk if t.startswith('E:0')][0]
+        nth, window = 0, []
+        for i, c in enumerate(run0.calls):
+            if c.name == 'fsync':
+                nth += 1
+                if b < i < e and c.tid == tid:
+                    window.append(nth)
+        for k, nth in enumerate(window):
+            for errno in ('EIO', 'ENOSPC'):
+                res = 'not-landed'
+                for attempt in range(4):
+                    res = _c09_history(env, 'fault:%s:fsync#%d' % (opname, k + 1), setup, auxf, [step], init, inject='fsync:error=%s:when=%d' % (errno, nth))
+                    if res != 'not-landed':
+                        break
+                if res == 'not-landed':
+                    raise TraceError('fsync fault #%d into %s did not land inside the operation window in 4 attempts' % (k + 1, opname))
+                outcomes['%s:fsync#%d:%s' % (opname, k + 1, errno)] = res
+                env.distinct.add((opname, k, errno, res))
+                env.cov['fault_runs'] = env.cov.get('fault_runs', 0) + 1
+    env.samples.append({'outcome_per_failed_fsync': outcomes})
+    return env.evidence(
+        'for each of init, add, update, set-admin, remove: every fsync of the operation fails once (EIO, ENOSPC; strace inject, position verified); if the operation still reports success, every power-loss image at its acknowledgement '
+        '(every subset of pending directory operations x every prefix of pending writes, the failed fsync having made nothing durable) must show the acknowledged change (abstract + byte-exact oracle of the durability part); '
+        'operations that report the failure are outside this property (C15)',
+        ['single fault per run', 'a failed fsync makes nothing durable (the kernel may have written some of it: those states are a subset of the images explored)'])
 
 
 # =============================================================================================
